@@ -11,6 +11,11 @@ CHECKS = {
          'Every well-formed pattern up to 5 (thorough 7) symbols over {a,b,.,*,?,[,],!} is matched against every valid dotted name up to 5 characters by pydoctor.qnmatch and by an independent matcher written from the manual; every --privacy rule list up to 3 (thorough 4) rules over level x 6 rule shapes is evaluated on a real System and compared with a stateless precedence reference (privacyClass, isVisible, isPrivate); every sequence of up to 4 (6) query/reparent operations is executed against the privacy cache (explicit states = location x cache content). The spaces are finite and enumerated completely, so inside the bound the property is decided, not sampled.',
          'Trusted: the reference matcher and precedence reference (60 lines, written from the manual text); the pattern/name alphabets; malformed bracket expressions are outside the statement.',
          'DESIGN.md section 5, C13'),
+ 'C19': ('model_checking',
+         'exhaustive enumeration of trees x pruning actions x extension timing sets on the real Visitor.walkabout/walk against an executable reading of the documented contract; explicit protocol state graph',
+         'Every ordered tree up to 4 (thorough 5) nodes x every assignment of {none, SkipChildren, SkipSiblings, SkipNode, SkipDeparture} to each node x 20 extension timing sets is walked by the real Visitor.walkabout and Visitor.walk with instrumented main visitor and VisitorExt subclasses; the recorded enter/leave trace is checked against the invariants of the statement (enter at most once, every extension enter has a leave, nesting like the tree, documented relative order) and against a 30-line reference model of the documented contract. The state graph of the walk protocol (stack of open frames) is accumulated and reported. Second half: the real ASTBuilder walks every module of the statement alphabet x 6 placements and must be back at rest (scope stack empty).',
+         'Trusted: the reference reading of the docstrings in pydoctor/visitor.py; pruning exceptions are raised by the main visitor in visit only.',
+         'DESIGN.md section 5, C19'),
 }
 
 
